@@ -40,6 +40,11 @@ type Script struct {
 	NoToolsCap         bool   `json:"no_tools_cap"`
 	Arg                string `json:"arg"`
 	ExtraTools         int    `json:"extra_tools"`
+	// SetupMs > 0: the server's InitializedHandler takes this long (virtual) and then registers the tool "late",
+	// as a server that equips itself once it knows its client does. A session that went through the
+	// initialize/initialized handshake must see that tool in the very first listing after Connect: the
+	// notification's handler finishes before any later message is dispatched (docs/protocol.md, Concurrency).
+	SetupMs int `json:"setup_ms,omitempty"`
 	// Before: sessions established with the SAME Server over other links before the judged one
 	// (what was negotiated there must not influence the judged negotiation).
 	Before []Prior `json:"before,omitempty"`
@@ -103,6 +108,7 @@ func genScript(rt *rapid.T) Script {
 		NoToolsCap:         rapid.Bool().Draw(rt, "notoolscap"),
 		Arg:                rapid.StringN(0, 8, -1).Draw(rt, "arg"),
 		ExtraTools:         rapid.IntRange(0, 3).Draw(rt, "extra"),
+		SetupMs:            rapid.SampledFrom([]int{0, 0, 0, 1, 250}).Draw(rt, "setup_ms"),
 	}
 	if s.Link.Kind == wire.Stateful || s.Link.Kind == wire.Stateless {
 		s.Link.NoStandalone = rapid.Bool().Draw(rt, "nosse")
@@ -141,7 +147,16 @@ func runInBubble(s Script) (res vt.Result) {
 	if s.Link.EmptySessionID {
 		sopts.GetSessionID = func() string { return "" }
 	}
-	server := mcp.NewServer(&mcp.Implementation{Name: "srv", Version: "1"}, &sopts)
+	var server *mcp.Server
+	if s.SetupMs > 0 {
+		sopts.InitializedHandler = func(context.Context, *mcp.InitializedRequest) {
+			time.Sleep(time.Duration(s.SetupMs) * time.Millisecond)
+			mcp.AddTool(server, &mcp.Tool{Name: "late"}, func(ctx context.Context, req *mcp.CallToolRequest, in echoIn) (*mcp.CallToolResult, any, error) {
+				return &mcp.CallToolResult{}, nil, nil
+			})
+		}
+	}
+	server = mcp.NewServer(&mcp.Implementation{Name: "srv", Version: "1"}, &sopts)
 	server.AddReceivingMiddleware(func(next mcp.MethodHandler) mcp.MethodHandler {
 		return func(ctx context.Context, method string, req mcp.Request) (mcp.Result, error) {
 			mu.Lock()
@@ -386,8 +401,18 @@ func runInBubble(s Script) (res vt.Result) {
 		res.Failf("right after Connect (negotiated %q over %s): %v", neg, s.Link, or.err)
 		return
 	}
-	if !slices.Contains(or.tools, "echo") || len(or.tools) != 1+s.ExtraTools {
+	want := 1 + s.ExtraTools
+	if slices.Contains(or.tools, "late") {
+		want++
+	}
+	if !slices.Contains(or.tools, "echo") || len(or.tools) != want {
 		res.Failf("ListTools returned %v, want echo + %d extra tools", or.tools, s.ExtraTools)
+	}
+	if s.SetupMs > 0 && neg != modern && s.Link.Kind != wire.Stateless && !s.Link.EmptySessionID { // (per-request sessions: no connection to order the messages of)
+		res.Class("server_equips_itself_in_its_initialized_handler")
+		if !slices.Contains(or.tools, "late") {
+			res.Failf("negotiated %q over %s: the first ListTools after Connect returned %v although the server's InitializedHandler, which registers \"late\", was to finish before any later message is dispatched", neg, s.Link, or.tools)
+		}
 	}
 	if or.text != "echo:"+s.Arg {
 		res.Failf("CallTool returned %q, want %q", or.text, "echo:"+s.Arg)
